@@ -379,6 +379,9 @@ C08_pauseIff(t, gg) ==
     ELSE t.ev = "hook" /\ t.a.kind = "continue.setup"
 \* after a settlement the continue handler runs (the table's own timer): the driver has waited for the engine to come to rest
 C08_continueRuns(t, gg) == (t.ev \in {"noopen", "stuck"} /\ ~gg.ext) => ~gg.awaitFire
+\* between hands, left to itself, the table is in stand-by when its continue timer fires (whoever was moved in meanwhile)
+C08_standbyAtFire(t, gg) ==
+  (t.ev = "hook" /\ t.a.kind = "continue.fire" /\ ~gg.ext /\ ~HasHand(t.st) /\ t.st.gpi = <<>>) => t.st.status = "table_game_standby"
 C08_gateParticipants(t) ==
   (t.ev = "hook" /\ t.a.kind = "continue.setup") =>
     (Cardinality(AliveInIds(t.st)) >= 2 => Len(t.st.gate.parts) >= 2)
@@ -597,6 +600,7 @@ CheckLine(k, gg) ==
      /\ Clause("C08_pauseIff", C08_pauseIff(t, gg), "", k)
      /\ Clause("C08_gateParticipants", C08_gateParticipants(t), "", k)
      /\ Clause("C08_continueRuns", C08_continueRuns(t, gg), "", k)
+     /\ Clause("C08_standbyAtFire", C08_standbyAtFire(t, gg), "", k)
      /\ Clause("C08_noWedge", C08_noWedge(t, gg), IF KF_RotationRefused(st) THEN "KF-C04-waiting-newcomer" ELSE "", k)
      /\ Clause("C10_acceptedLegal", C10_acceptedLegal(t), "", k)
      /\ Clause("C10_refusedNoTrace", C10_refusedNoTrace(t, gg), kfmid, k)
